@@ -643,9 +643,10 @@ def main():
         "assumptions": spec.get("assumptions", []),
         "wall_s": round(time.time() - t0, 1), "violations": len(reported) + (1 if exit_code and not reported else 0),
     }
-    os.makedirs(os.path.join(VERIF, "evidence"), exist_ok=True)
-    with open(os.path.join(VERIF, "evidence", prop + ".json"), "w") as f:
-        json.dump(ev, f, indent=1)
+    if not args.replay:  # a replay re-executes one stored case; it is not a coverage run
+        os.makedirs(os.path.join(VERIF, "evidence"), exist_ok=True)
+        with open(os.path.join(VERIF, "evidence", prop + ".json"), "w") as f:
+            json.dump(ev, f, indent=1)
     for ln in out_lines:
         print(ln)
     print("%s tier=%s seed=%d theorems=%d/%d cases=%d nontrivial=%d diverged=%d violations=%d known=%d wall=%.0fs"
